@@ -160,6 +160,10 @@ CORPUS = [
          old="\t\tb := uint(src[si])\n\t\tsi++\n", new="\t\tb := uint(src[si])\n\t\tsi += 1\n"),
     dict(name="C13-benign-sum32-early-variable", kind="benign", props=["C13"], file="internal/xxh32/xxh32zero.go",
          old="\tp := 0\n\tn := xxh.bufused\n\tbuf := xxh.buf\n", new="\tn := xxh.bufused\n\tbuf := xxh.buf\n\tp := 0\n"),
+    dict(name="C18-unexpected-eof-from-the-source-ends-the-input", kind="break", props=["C18", "C15"], file="lz4.go",
+         old="\tif n == len(buf) {\n\t\terr = nil\n\t}\n\treturn\n}", new="\tif n == len(buf) {\n\t\terr = nil\n\t} else if err == io.ErrUnexpectedEOF {\n\t\terr = io.EOF\n\t}\n\treturn\n}"),
+    dict(name="C08-reset-keeps-the-frame-of-a-running-stream", kind="break", props=["C08"], file="reader.go",
+         old="\t\tr.frame.Blocks.CancelR(r.reads)\n\t\tr.frame = lz4stream.NewFrame()\n", new="\t\tr.frame.Reset(r.num)\n"),
     # ---- renamed locals (the `locals` line of the contract maps the old names by position) ----
     dict(name="C10-benign-rename-anchor", kind="benign", props=["C10"], file="internal/lz4block/block.go",
          regex=r"\banchor\b", new="anch"),
